@@ -52,7 +52,8 @@ var validFrags = vlib.FragmentIdx(func(f vlib.Fragment) bool { return f.Class ==
 func genBulk(t *rapid.T, conf vlib.Conf, strict bool) {
 	nsvc := rapid.IntRange(0, 14).Draw(t, "nsvc")
 	var all, gold []string
-	if rapid.IntRange(0, 9).Draw(t, "wide") == 5 && rapid.IntRange(0, 3).Draw(t, "wide-b") == 2 {
+	// (not in the quick tier's race-detector shards: a wide tree costs seconds there)
+	if rapid.IntRange(0, 9).Draw(t, "wide") == 5 && rapid.IntRange(0, 3).Draw(t, "wide-b") == 2 && !(os.Getenv("GORACE") != "" && os.Getenv("VERIF_TIER") == "quick") {
 		// a wide tree: hundreds of list entries validated side by side
 		for i, n := 0, rapid.IntRange(400, 520).Draw(t, "nwide"); i < n; i++ {
 			name := fmt.Sprintf("w%d", i)
